@@ -981,14 +981,6 @@ fn seq_model(c: &SeqCase, sw: Sw) -> Want {
 }
 
 fn main() {
-    if let Ok(f) = std::env::var("C28_PROBE") {
-        for line in std::fs::read_to_string(f).unwrap_or_default().lines() {
-            if !line.trim().is_empty() {
-                println!("{line}  =>  {:?}", run_expr(line, Mode::Scalar).map_err(|o| o.short()));
-            }
-        }
-        return;
-    }
     let ck = Check::from_args("C28");
     let quick = ck.quick();
     ck.rule("lists = all element tuples of length <= L over the element alphabet x {space,comma,slash} x {plain,bracketed}, all singleton forms, (), [], empty comma list, maps, argument lists; each function on every list, every index in -(n+1)..=n+1 plus 1.0/1.5/-0/1px, every $separator/$bracketed form; all pairs for join, all tuples <= 3 for zip; operation sequences <= 3 of append/join/set-nth; distinct = distinct call expression; outcome = inspect text (+ length, separator, is-bracketed, real separator for list results) or error");
